@@ -33,6 +33,10 @@ struct Scr<const N: usize> {
     post_us: u64,
     post: Post,
     has_pci: bool,
+    /// asks for a shutdown with this status during its initialisation, before it waits at the barrier
+    early: Option<u32>,
+    /// its initialisation never finishes
+    never: bool,
 }
 
 #[async_trait::async_trait]
@@ -40,6 +44,13 @@ impl<const N: usize> Protocol for Scr<N> {
     async fn start(&self, shutdown: Shutdown, initialized: Arc<Barrier>, machine: Arc<Machine>) -> Result<(), StartError> {
         if self.init_us > 0 {
             tokio::time::sleep(Duration::from_micros(self.init_us)).await;
+        }
+        if let Some(st) = self.early {
+            emit(json!({"ev":"shutreq","m":self.m,"p":N,"status":st}));
+            shutdown.shut_down_with_status(ExitStatus::Status(st));
+        }
+        if self.never {
+            std::future::pending::<()>().await;
         }
         emit(json!({"ev":"arrive","m":self.m,"p":N}));
         initialized.wait().await;
@@ -150,10 +161,17 @@ pub fn scenario(run: u64, rng: &mut SmallRng) {
             let (init_us, post_us) = (delays[rng.gen_range(0..6)], delays[rng.gen_range(0..6)]);
             let post = pick_post(rng, &mut next_status);
             total_scr += 1;
+            let early = if rng.gen_range(0..10) == 0 {
+                next_status += 1;
+                Some(next_status)
+            } else {
+                None
+            };
+            let never = rng.gen_range(0..14) == 0;
             mach = match p {
-                0 => mach.with(Scr::<0> { m, init_us, post_us, post, has_pci }),
-                1 => mach.with(Scr::<1> { m, init_us, post_us, post, has_pci }),
-                _ => mach.with(Scr::<2> { m, init_us, post_us, post, has_pci }),
+                0 => mach.with(Scr::<0> { m, init_us, post_us, post, has_pci, early, never }),
+                1 => mach.with(Scr::<1> { m, init_us, post_us, post, has_pci, early, never }),
+                _ => mach.with(Scr::<2> { m, init_us, post_us, post, has_pci, early, never }),
             };
         }
         machines.push(mach.arc());
